@@ -68,10 +68,12 @@ CONTROLS = [("ReshareMC_ctl_nocompact.cfg", "AnyTRecover", "remove-only ceremony
             ("ReshareMC_ctl_rmall.cfg", "NoFailure", "as coded: 'one original node remains' compared by kyber index after re-indexing (GROW-RESHARE-rmall-index)"),
             ("ReshareMC_ctl_leaverwait.cfg", "deadlock", "time stands still: a leaver with every response before its last deal waits for the phaser"),
             ("ReshareMC_ctl_phaser.cfg", "NoPhaserNeeded", "... and only kyber's time phaser gets it on"),
+            ("ReshareMC_ctl_live_lost.cfg", "temporal", "an old operator lost its shares: the ceremony cannot end (only the timeouts end it)"),
+            ("ReshareMC_ctl_live_nophaser.cfg", "temporal", "every message delivered, no phaser: a ceremony with a leaver need not end"),
             ("ReshareMC_ctl_mixed.cfg", "MixedAlwaysRecovers", "a mixture of old and new shares is NOT a sharing of the key (the claim that it is must fail)")]
-QUICK_MC = ["ReshareMC_quick.cfg", "ReshareMC_alg_quick.cfg", "ReshareMC_order_quick.cfg", "ReshareMC_nonedup_safe.cfg"]
+QUICK_MC = ["ReshareMC_quick.cfg", "ReshareMC_alg_quick.cfg", "ReshareMC_order_quick.cfg", "ReshareMC_nonedup_safe.cfg", "ReshareMC_live.cfg"]
 THOROUGH_MC = ["ReshareMC_quick.cfg", "ReshareMC_alg.cfg", "ReshareMC_alg_t3.cfg", "ReshareMC_order.cfg", "ReshareMC_free.cfg",
-               "ReshareMC_n4.cfg", "ReshareMC_fault.cfg", "ReshareMC_nonedup_safe.cfg"]
+               "ReshareMC_n4.cfg", "ReshareMC_fault.cfg", "ReshareMC_nonedup_safe.cfg", "ReshareMC_live.cfg"]
 
 
 # ----------------------------------------------------------------------------------------------
@@ -143,8 +145,10 @@ def shape_reshare(r, N0, T, V, vary_nt=False):
     return Shape(N0, N0, range(1, N0 + 1), range(1, N0 + 1), [], [], T, nt, V, name="reshare")
 
 
-def shape_add(r, N0, T, V, k):
-    return Shape(N0 + k, N0, range(1, N0 + k + 1), range(1, N0 + 1), range(N0 + 1, N0 + k + 1), [], T, T, V, name="add")
+def shape_add(r, N0, T, V, k, nt=None):
+    """nt: add-operators keeps the threshold; RunReshareDKG itself takes any new threshold"""
+    return Shape(N0 + k, N0, range(1, N0 + k + 1), range(1, N0 + 1), range(N0 + 1, N0 + k + 1), [], T, T if nt is None else nt, V,
+                 name="add" if nt is None else "add-nt")
 
 
 def shape_remove(r, N0, T, V, gone, leavers=(), nt=0):
@@ -170,13 +174,16 @@ def random_shape(r, k):
         N0 = r.choice([3, 4, 4, 5, 5])
         T = r.choice([dflt(N0), dflt(N0), r.randint(2, N0)])
         V = r.choice([1, 2, 2])
-        what = ["reshare", "add", "remove", "removep", "replace", "reshare-nt"][k % 6]
+        what = ["reshare", "add", "remove", "removep", "replace", "reshare-nt", "add-nt"][k % 7]
         if what == "reshare":
             s = shape_reshare(r, N0, T, V)
         elif what == "reshare-nt":
             s = shape_reshare(r, N0, T, V, vary_nt=True)
         elif what == "add":
             s = shape_add(r, min(N0, 4), min(T, min(N0, 4)), V, r.choice([1, 1, 2]) if N0 <= 3 else 1)
+        elif what == "add-nt":
+            n = min(N0, 4)
+            s = shape_add(r, n, min(T, n), V, 1, nt=r.randint(1, n + 1))
         elif what == "remove":
             if N0 - T < 1:
                 continue
@@ -411,7 +418,7 @@ def random_schedules(seed, count):
     out = []
     for k in range(count):
         s = random_shape(r, k)
-        out.append(ceremony(r, s, KINDS[(k // 6) % len(KINDS)], seed, src="dkg" if k % 9 == 4 else "split"))
+        out.append(ceremony(r, s, KINDS[(k // 7) % len(KINDS)], seed, src="dkg" if k % 9 == 4 else "split"))
     return out
 
 
@@ -422,7 +429,8 @@ def corner_schedules(seed):
           shape_remove(r, 4, 3, 2, [2]), shape_remove(r, 5, 4, 1, [], [1]), shape_remove(r, 5, 3, 1, [5], [2], nt=0),
           shape_remove(r, 4, 3, 2, [], [4], nt=2), shape_replace(r, 4, 3, 2, 3), shape_replace(r, 5, 4, 1, 1),
           Shape(5, 5, [1, 2, 3, 4, 5], [1, 2, 3, 4, 5], [], [], 4, 2, 1, name="reshare-nt"),
-          Shape(4, 4, [1, 2, 3, 4], [1, 2, 3, 4], [], [], 2, 4, 1, name="reshare-nt")]
+          Shape(4, 4, [1, 2, 3, 4], [1, 2, 3, 4], [], [], 2, 4, 1, name="reshare-nt"),
+          shape_add(r, 4, 3, 1, 1, nt=2), shape_add(r, 3, 2, 1, 1, nt=3)]
     return [ceremony(r, s, KINDS[k % len(KINDS)], seed, src="dkg" if k in (0, 4) else "split") for k, s in enumerate(sh)]
 
 
@@ -855,7 +863,7 @@ def design_check_start(o, tier):
             if inv is None:
                 vlib.require_mc_ok(r, cfg)
                 o.add_mc(cfg[:-4], r)
-            elif r.violation != inv:
+            elif (r.violation or ("temporal" if "Temporal property Terminates was violated" in r.out else None)) != inv:
                 raise vlib.Infra("Reshare design-spec control failed: '%s' not caught by %s: %s" % (what, inv, r.summary()))
             else:
                 o.selftests.append({"control": "Reshare spec variant '%s' violates %s" % (what, inv), "rejected_as_required": True})
